@@ -179,6 +179,8 @@ class P(Property):
         extra = []
         for i in range(0, len(out), step):
             fam, rest = out[i].split(' ', 1)
+            if '.' in fam:
+                continue
             extra.append(fam + rng.choice(envs) + ' ' + rest)
         return out + extra
 
